@@ -138,6 +138,16 @@ func withVariant(tok string) string {
 	return tok + drawVariantSuffix()
 }
 
+// cornerNeighbour: on auto-margin terminals painted with the insert-character trick, the cells of the last row that the trick
+// itself writes: the corner, the column left of it, and — when that column is the right half of a wide rune — the wide rune's
+// own cell, which the repaired trick repaints ("the neighbour used to paint the bottom-right corner" of the C13 statement)
+func cornerNeighbour(w, h, x, y int, wideAt func(x, y int) bool) bool {
+	if y != h-1 {
+		return false
+	}
+	return x >= w-2 || (x == w-3 && wideAt(x, y))
+}
+
 func ecmaEntries() []string {
 	var out []string
 	seen := map[*terminfo.Terminfo]bool{}
@@ -727,7 +737,7 @@ func execDraw(line string) (res h.Result) {
 						if ucells[y*sh.w+x].stamp != block || block <= 1 || sh.allowed[k][block] {
 							continue
 						}
-						if cornerTrick(ti) && y == sh.h-1 && x >= sh.w-2 {
+						if cornerTrick(ti) && cornerNeighbour(sh.w, sh.h, x, y, func(a, b int) bool { return widthOf(get(a, b).main) > 1 }) {
 							continue // the neighbour used to paint the bottom-right corner (the property's own exception)
 						}
 						if orphanErased(ucells, sh.w, x, y) {
@@ -754,7 +764,7 @@ func execDraw(line string) (res h.Result) {
 						if !inr(k[0], k[1]) || sh.locked[k] || !heads(k[1], false)[k[0]] || !heads(k[1], true)[k[0]] {
 							continue
 						}
-						if cornerTrick(ti) && k[1] == sh.h-1 && k[0] >= sh.w-2 {
+						if cornerTrick(ti) && cornerNeighbour(sh.w, sh.h, k[0], k[1], func(a, b int) bool { return widthOf(get(a, b).main) > 1 }) {
 							continue // painted through the insert-character trick: the stamps there are the terminal's shifting
 						}
 						tags["unlock-repaint-judged"] = true
@@ -964,7 +974,7 @@ func execDraw(line string) (res h.Result) {
 					if ec.stamp <= 1 || sh.allowed[k][ec.stamp] {
 						continue
 					}
-					if trick && y == sh.h-1 && x >= sh.w-2 {
+					if trick && cornerNeighbour(sh.w, sh.h, x, y, func(a, b int) bool { return widthOf(get(a, b).main) > 1 }) {
 						continue // the neighbour used to paint the bottom-right corner (the property's own exception)
 					}
 					if orphanErased(cells, sh.w, x, y) {
